@@ -123,7 +123,7 @@ theorem workerNew_ok {js : Job.State} {w : Nat} (h : w ∉ js.workers) : ∃ r, 
   exact ⟨_, rfl⟩
 
 theorem setWaitingAll_spec : ∀ (ts : List TaskId) {js js' : Job.State}, js.setWaitingAll ts = .ok js' →
-    SameRest js js' ∧ js'.sent = js.sent ∧ (∀ t ∈ ts, (tst js t).isSome) ∧
+    SameRest js js' ∧ js'.sent = js.sent ∧ (∀ t ∈ ts, live (tst js t) = true) ∧
     ∀ x, tst js' x = if x ∈ ts then some .waiting else tst js x := by
   intro ts
   induction ts with
